@@ -9,6 +9,7 @@ R5 references taken while listing a directory are paired with the entries the cl
 
 Linearizability itself (all interleavings) is NOT decided by this check.
 R1-entry-pairing (shared with C08.R1) a reference the client never received is given back on that inode
+R4-lookup-shape, R7-identity-lookup, R8-batch-forget-default: shared with C08
 """
 from pyfbr import core, vf
 from rules import common
